@@ -49,7 +49,7 @@ VCS_SUBCOMMANDS_BY_NAME = {
         'fetch'         : "git fetch",
         'ls_tags'       : "git tag --list",
         'ls_tags_branch': "git tag --list --merged",
-        'status'        : "git status --porcelain",
+        'status'        : "git status --porcelain --untracked-files=all",
         'add_path'      : "git add --update '{path}'",
         'commit'        : "git commit --message '{message}'",
         'tag'           : "git tag --annotate {tag} --message '{message}'",
@@ -151,7 +151,10 @@ class VCSAPI:
         status_output = self('status')
         if self.name == 'git':
             # porcelain format: two status columns (either may be a blank), a blank, the path
-            status_items = [[line[:2], line[3:]] for line in status_output.splitlines()]
+            # (renamed/copied entries are "<orig path> -> <path>", the file is at <path>)
+            status_items = [
+                [line[:2], line[3:].split(" -> ", 1)[-1]] for line in status_output.splitlines()
+            ]
         else:
             status_items = [line.split(" ", 1) for line in status_output.splitlines()]
 
